@@ -2136,6 +2136,18 @@ func (d *Document) parseBodySubElement(decoder *xml.Decoder, startElement xml.St
 	case "sectPr":
 		// 解析节属性
 		return d.parseSectionProperties(decoder, startElement)
+	case "bookmarkStart":
+		// 书签开始（AddHeadingParagraphWithBookmark 会在正文层级写出）
+		bookmark := &BookmarkStart{
+			ID:   getAttributeValue(startElement.Attr, "id"),
+			Name: getAttributeValue(startElement.Attr, "name"),
+		}
+		return bookmark, d.skipElement(decoder, startElement.Name.Local)
+	case "bookmarkEnd":
+		bookmark := &BookmarkEnd{
+			ID: getAttributeValue(startElement.Attr, "id"),
+		}
+		return bookmark, d.skipElement(decoder, startElement.Name.Local)
 	default:
 		// 跳过未知元素
 		Debugf("跳过未知元素: %s", startElement.Name.Local)
@@ -2245,6 +2257,50 @@ func (d *Document) parseParagraphProperties(decoder *xml.Decoder, paragraph *Par
 					return err
 				}
 				paragraph.Properties.NumberingProperties = numPr
+			case "keepNext":
+				paragraph.Properties.KeepNext = &KeepNext{Val: getAttributeValue(t.Attr, "val")}
+				if err := d.skipElement(decoder, t.Name.Local); err != nil {
+					return err
+				}
+			case "keepLines":
+				paragraph.Properties.KeepLines = &KeepLines{Val: getAttributeValue(t.Attr, "val")}
+				if err := d.skipElement(decoder, t.Name.Local); err != nil {
+					return err
+				}
+			case "pageBreakBefore":
+				paragraph.Properties.PageBreakBefore = &PageBreakBefore{Val: getAttributeValue(t.Attr, "val")}
+				if err := d.skipElement(decoder, t.Name.Local); err != nil {
+					return err
+				}
+			case "widowControl":
+				paragraph.Properties.WidowControl = &WidowControl{Val: getAttributeValue(t.Attr, "val")}
+				if err := d.skipElement(decoder, t.Name.Local); err != nil {
+					return err
+				}
+			case "outlineLvl":
+				paragraph.Properties.OutlineLevel = &OutlineLevel{Val: getAttributeValue(t.Attr, "val")}
+				if err := d.skipElement(decoder, t.Name.Local); err != nil {
+					return err
+				}
+			case "snapToGrid":
+				paragraph.Properties.SnapToGrid = &SnapToGrid{Val: getAttributeValue(t.Attr, "val")}
+				if err := d.skipElement(decoder, t.Name.Local); err != nil {
+					return err
+				}
+			case "pBdr":
+				// 段落边框
+				border, err := d.parseParagraphBorder(decoder)
+				if err != nil {
+					return err
+				}
+				paragraph.Properties.ParagraphBorder = border
+			case "tabs":
+				// 制表位
+				tabs, err := d.parseTabs(decoder)
+				if err != nil {
+					return err
+				}
+				paragraph.Properties.Tabs = tabs
 			case "sectPr":
 				// 一些文档将节属性存储在段落属性中
 				sectPr, err := d.parseSectionProperties(decoder, t)
@@ -2260,6 +2316,75 @@ func (d *Document) parseParagraphProperties(decoder *xml.Decoder, paragraph *Par
 		case xml.EndElement:
 			if t.Name.Local == "pPr" {
 				return nil
+			}
+		}
+	}
+}
+
+// parseParagraphBorder 解析段落边框（w:pBdr）
+func (d *Document) parseParagraphBorder(decoder *xml.Decoder) (*ParagraphBorder, error) {
+	border := &ParagraphBorder{}
+
+	for {
+		token, err := decoder.Token()
+		if err != nil {
+			return nil, WrapError("parse_paragraph_border", err)
+		}
+
+		switch t := token.(type) {
+		case xml.StartElement:
+			line := &ParagraphBorderLine{
+				Val:   getAttributeValue(t.Attr, "val"),
+				Color: getAttributeValue(t.Attr, "color"),
+				Sz:    getAttributeValue(t.Attr, "sz"),
+				Space: getAttributeValue(t.Attr, "space"),
+			}
+			switch t.Name.Local {
+			case "top":
+				border.Top = line
+			case "left":
+				border.Left = line
+			case "bottom":
+				border.Bottom = line
+			case "right":
+				border.Right = line
+			}
+			if err := d.skipElement(decoder, t.Name.Local); err != nil {
+				return nil, err
+			}
+		case xml.EndElement:
+			if t.Name.Local == "pBdr" {
+				return border, nil
+			}
+		}
+	}
+}
+
+// parseTabs 解析制表位定义（w:tabs）
+func (d *Document) parseTabs(decoder *xml.Decoder) (*Tabs, error) {
+	tabs := &Tabs{}
+
+	for {
+		token, err := decoder.Token()
+		if err != nil {
+			return nil, WrapError("parse_tabs", err)
+		}
+
+		switch t := token.(type) {
+		case xml.StartElement:
+			if t.Name.Local == "tab" {
+				tabs.Tabs = append(tabs.Tabs, TabDef{
+					Val:    getAttributeValue(t.Attr, "val"),
+					Leader: getAttributeValue(t.Attr, "leader"),
+					Pos:    getAttributeValue(t.Attr, "pos"),
+				})
+			}
+			if err := d.skipElement(decoder, t.Name.Local); err != nil {
+				return nil, err
+			}
+		case xml.EndElement:
+			if t.Name.Local == "tabs" {
+				return tabs, nil
 			}
 		}
 	}
@@ -2347,6 +2472,12 @@ func (d *Document) parseRun(decoder *xml.Decoder, startElement xml.StartElement)
 					return nil, err
 				}
 				run.Drawing = drawing
+			case "br":
+				// 换行/分页符
+				run.Break = &Break{Type: getAttributeValue(t.Attr, "type")}
+				if err := d.skipElement(decoder, t.Name.Local); err != nil {
+					return nil, err
+				}
 			default:
 				if err := d.skipElement(decoder, t.Name.Local); err != nil {
 					return nil, err
@@ -2736,6 +2867,15 @@ func (d *Document) parseTableCell(decoder *xml.Decoder, startElement xml.StartEl
 				if para != nil {
 					cell.Paragraphs = append(cell.Paragraphs, *para)
 				}
+			case "tbl":
+				// 嵌套表格
+				nested, err := d.parseTable(decoder, t)
+				if err != nil {
+					return nil, err
+				}
+				if nested != nil {
+					cell.Tables = append(cell.Tables, *nested)
+				}
 			default:
 				if err := d.skipElement(decoder, t.Name.Local); err != nil {
 					return nil, err
@@ -2811,6 +2951,16 @@ func (d *Document) parseSectionProperties(decoder *xml.Decoder, startElement xml
 						CharSpace: charSpace,
 					}
 				}
+				if err := d.skipElement(decoder, t.Name.Local); err != nil {
+					return nil, err
+				}
+			case "titlePg":
+				sectPr.TitlePage = &TitlePage{}
+				if err := d.skipElement(decoder, t.Name.Local); err != nil {
+					return nil, err
+				}
+			case "pgNumType":
+				sectPr.PageNumType = &PageNumType{Fmt: getAttributeValue(t.Attr, "fmt")}
 				if err := d.skipElement(decoder, t.Name.Local); err != nil {
 					return nil, err
 				}
